@@ -2,11 +2,14 @@
 (* Bounded instance of Types.tla: a grammar of type terms (closed under permuting the members of every     *)
 (* Union) x candidate inputs generated FROM the type: structures over a pool of conforming and             *)
 (* non-conforming elements (wrong scalar kind, bool for int, unknown member, arity +-1, wrong container),  *)
-(* and every text of the vocabulary (texts that only look like another type).  One state per (type, input);*)
-(* every invariant is evaluated in every state and every case is printed as JSON for the replay.           *)
+(* and texts of the vocabulary (texts that only look like another type); arguments WITH a default x        *)
+(* scalars of every kind (also the ones that are ==-equal to the default) and the key not given at all.    *)
+(* One state per (type, default, input); every law is evaluated in every state and every case is printed   *)
+(* as JSON for the replay.                                                                                 *)
 EXTENDS Types, Json
 CONSTANTS Tier,        \* "quick" | "thorough"
-          Emit         \* "all": print every case as JSON; "accepted": only those that Alg accepts (C10); "none"
+          Emit,        \* "all": print every case as JSON; "accepted": only those that Alg accepts (C10); "none"
+          Laws         \* "all" | "c10": only the fixed-point laws (the C10 check runs the same instance)
 MCFieldOrder == [k |-> "tag", v |-> "payload"]     \* first record of the root module: fixes TLC's field order
 
 Lit1 == LitT(<<StrV("a"), IntV(1), NoneV>>)        \* Literal['a', 1, None]
@@ -23,41 +26,46 @@ Unions2(S) == {UnionT(p) : p \in DPairs(S)}
 Unions3(S) == {UnionT(p) : p \in DTriples(S)}
 Conts(S)   == {ListT(e) : e \in S} \cup {SetT(e) : e \in S} \cup {TupleET(e) : e \in S}
 
-TopLeaves  == {StrT, IntT, FloatT, BoolT, AnyT, EnE, Lit1, Lit2}
-AllLeaves  == TopLeaves \cup {NoneT, EnF, Lit3}
+TopLeaves  == {StrT, IntT, FloatT, BoolT, AnyT, EnE, Lit1, Lit2, PathT}
+AllLeaves  == (TopLeaves \ {PathT}) \cup {NoneT, EnF, Lit3}
 Core       == {StrT, IntT, BoolT, NoneT}
+\* several Tuple / Set members in one Union: an earlier member must not leave its conversions behind for the next one
+TupF == TupleT(<<FloatT, FloatT>>)
+TupIS == TupleT(<<IntT, StrT>>)
+TupSetQuick == {TupF, TupIS, TupleT(<<IntT, IntT>>), TupleT(<<StrT, StrT>>), SetT(IntT), SetT(StrT)}
 D1Quick ==
-       Conts(AllLeaves) \cup {BareListT, BareDictT}
+       Conts({StrT, IntT, BoolT, AnyT, EnE, Lit1, NoneT, Lit3}) \cup {BareListT, BareDictT}
   \cup {TupleT(p) : p \in Pairs({IntT, StrT, BoolT})} \cup {TupleT(<<IntT>>)}
   \cup {DictT(kt, e) : kt \in {StrT, IntT}, e \in {IntT, StrT, BoolT, Lit1}}
   \cup Unions2({StrT, IntT, FloatT, BoolT, NoneT, EnE, EnF, Lit1, ListT(IntT), DictT(StrT, IntT)})
-  \cup Unions3(Core) \cup Unions3({StrT, IntT, ListT(IntT)})
+  \cup Unions3({StrT, IntT, NoneT}) \cup Unions3({StrT, IntT, ListT(IntT)})
 UStrInt == Unions2(Core)
 D2Quick ==
-       {ListT(u) : u \in UStrInt} \cup {DictT(StrT, u) : u \in UStrInt} \cup {SetT(u) : u \in Unions2({StrT, IntT, BoolT})}
+       {ListT(u) : u \in UStrInt} \cup {DictT(StrT, u) : u \in Unions2({StrT, IntT, NoneT})} \cup {SetT(u) : u \in Unions2({StrT, IntT, BoolT})}
   \cup {TupleT(<<u, IntT>>) : u \in Unions2({StrT, IntT, NoneT})}
   \cup Unions2({StrT, ListT(UnionT(<<StrT, IntT>>))}) \cup Unions2({StrT, ListT(UnionT(<<IntT, StrT>>))})
   \cup Unions2({ListT(IntT), SetT(IntT), TupleT(<<IntT, IntT>>)})
   \cup Unions2({ListT(IntT), ListT(StrT), TupleT(<<StrT, StrT>>)}) \cup Unions2({DictT(StrT, IntT), DictT(StrT, StrT)})
   \cup {ListT(u) : u \in Unions2({ListT(IntT), ListT(StrT)})}
+  \cup Unions2(TupSetQuick) \cup {ListT(u) : u \in Unions2({TupF, TupIS})} \cup Unions2({ListT(TupF), ListT(TupIS)})
   \cup {ListT(ListT(IntT)), ListT(DictT(StrT, IntT)), DictT(StrT, ListT(IntT)), ListT(TupleT(<<IntT, StrT>>)), SetT(TupleET(IntT)), SetT(ListT(IntT))}
 
 D1Thorough ==
-       D1Quick
+       D1Quick \cup Conts(AllLeaves)
   \cup {TupleT(p) : p \in Pairs({IntT, StrT, BoolT, FloatT, NoneT, EnE, Lit1})}
   \cup {DictT(kt, e) : kt \in {StrT, IntT}, e \in AllLeaves}
   \cup Unions2(AllLeaves \cup {ListT(IntT), ListT(StrT), DictT(StrT, IntT), SetT(IntT), TupleT(<<IntT, StrT>>), TupleET(IntT)})
   \cup Unions3({StrT, IntT, FloatT, BoolT, NoneT, EnE, Lit1}) \cup Unions3({StrT, NoneT, ListT(IntT), DictT(StrT, IntT)})
 UWide == Unions2({StrT, IntT, FloatT, BoolT, NoneT, EnE, Lit1})
 D2Thorough ==
-       D2Quick
+       D2Quick \cup {DictT(StrT, u) : u \in UStrInt}
   \cup Conts(UWide) \cup {DictT(kt, u) : kt \in {StrT, IntT}, u \in UWide} \cup Conts(Unions3(Core))
   \cup {TupleT(<<u, w>>) : u \in UStrInt, w \in {IntT, StrT}} \cup {TupleT(<<w, u>>) : u \in UStrInt, w \in {IntT, StrT}}
   \cup Conts(Conts({IntT, StrT, BoolT, NoneT})) \cup {ListT(DictT(kt, e)) : kt \in {StrT, IntT}, e \in {IntT, StrT, BoolT}}
   \cup {DictT(StrT, c) : c \in Conts({IntT, StrT, BoolT})}
   \cup Unions2({StrT, IntT, NoneT, ListT(UnionT(<<StrT, IntT>>)), DictT(StrT, UnionT(<<IntT, StrT>>))})
   \cup Unions2({StrT, IntT, NoneT, ListT(UnionT(<<IntT, StrT>>)), DictT(StrT, UnionT(<<StrT, IntT>>))})
-  \cup Unions3({StrT, ListT(IntT), SetT(IntT), TupleT(<<IntT, IntT>>)})
+  \cup Unions3({StrT, ListT(IntT), SetT(IntT), TupleT(<<IntT, IntT>>)}) \cup Unions3(Core)
 D3Thorough ==
        {ListT(ListT(u)) : u \in UStrInt} \cup {DictT(StrT, ListT(u)) : u \in UStrInt} \cup {ListT(DictT(StrT, u)) : u \in UStrInt}
   \cup {ListT(TupleT(<<u, IntT>>)) : u \in UStrInt} \cup {UnionT(<<NoneT, ListT(u)>>) : u \in UStrInt} \cup {UnionT(<<ListT(u), NoneT>>) : u \in UStrInt}
@@ -65,21 +73,43 @@ D3Thorough ==
 
 ContPairs == Unions2({ListT(IntT), ListT(StrT), ListT(BoolT), DictT(StrT, IntT), DictT(StrT, StrT), DictT(IntT, IntT), SetT(IntT), SetT(StrT),
                        TupleT(<<IntT, StrT>>), TupleT(<<StrT, StrT>>), TupleET(IntT), TupleET(StrT)})
+TupSetThorough == TupSetQuick \cup {TupleT(<<IntT, FloatT>>), TupleT(<<FloatT, StrT>>), TupleT(<<BoolT, IntT>>), TupleET(FloatT), TupleET(IntT), SetT(FloatT), SetT(BoolT)}
 D4Thorough == ContPairs \cup {ListT(u) : u \in ContPairs} \cup {DictT(StrT, u) : u \in ContPairs}
+         \cup Unions2(TupSetThorough) \cup Unions3({TupF, TupIS, TupleT(<<StrT, StrT>>), SetT(IntT)})
+         \cup {ListT(u) : u \in Unions2(TupSetQuick)} \cup {DictT(StrT, u) : u \in Unions2({TupF, TupIS, SetT(IntT)})}
 TypeSet == IF Tier = "quick" THEN TopLeaves \cup D1Quick \cup D2Quick
            ELSE TopLeaves \cup D1Thorough \cup D2Thorough \cup D3Thorough \cup D4Thorough
 
+\* arguments with a default: canonical ones and valid but non-canonical ones (int for float, tuple for List, list for
+\* Tuple / Set, str keys for Dict[int, .], a member name for an Enum, a file name for a path)
+L12 == <<IntV(1), IntV(2)>>
+DefaultsQuick ==
+  { <<BoolT, BoolV(FALSE)>>, <<IntT, IntV(1)>>, <<IntT, IntV(2)>>, <<FloatT, FloatV(1, 1)>>, <<FloatT, IntV(1)>>, <<StrT, StrV("abc")>>,
+    <<UnionT(<<IntT, StrT>>), IntV(1)>>, <<UnionT(<<FloatT, NoneT>>), IntV(1)>>, <<Lit1, IntV(1)>>, <<EnE, StrV("A")>>, <<PathT, StrV("file.txt")>>,
+    <<ListT(IntT), TupleV(L12)>>, <<TupleT(<<IntT, IntT>>), ListV(L12)>>, <<SetT(IntT), ListV(<<IntV(1)>>)>>, <<DictT(IntT, StrT), D1(StrV("1"), StrV("a"))>> }
+DefaultsThorough == DefaultsQuick \cup
+  { <<BoolT, BoolV(TRUE)>>, <<IntT, IntV(0)>>, <<FloatT, FloatV(3, 2)>>, <<FloatT, IntV(2)>>, <<StrT, StrV("1")>>, <<StrT, StrV("null")>>,
+    <<UnionT(<<StrT, IntT>>), IntV(1)>>, <<UnionT(<<IntT, FloatT>>), IntV(1)>>, <<UnionT(<<FloatT, IntT>>), IntV(1)>>, <<UnionT(<<NoneT, IntT>>), IntV(2)>>,
+    <<Lit3, IntV(2)>>, <<EnE, EnumV("E", "B")>>, <<ListT(FloatT), ListV(L12)>>, <<ListT(IntT), ListV(<<StrV("1")>>)>>, <<TupleET(IntT), ListV(L12)>>,
+    <<DictT(StrT, FloatT), D1(StrV("a"), IntV(1))>>, <<ListT(UnionT(<<IntT, StrT>>)), TupleV(<<IntV(1), StrV("a")>>)>>, <<AnyT, StrV("1")>> }
+DefaultPairs == IF Tier = "quick" THEN DefaultsQuick ELSE DefaultsThorough
+
 \* ------------------------------------------------------------------ candidate inputs, generated from the type
-Texts   == DOMAIN YamlTbl \cup {"abc", "a", "b", "A", "B", "C", "", " "}
-Scalars == {NoneV, BoolV(TRUE), BoolV(FALSE), IntV(0), IntV(1), IntV(2), FloatV(3, 2), FloatV(1, 1),
-            EnumV("E", "A"), EnumV("E", "B"), EnumV("F", "C")} \cup {StrV(s) : s \in Texts}
+Texts   == DOMAIN YamlTbl \cup {"abc", "a", "b", "A", "B", "C", "", " ", "file.txt", "missing.txt"}
+\* the texts that every type sees as a whole argument (containers and Unions of the quick tier); leaf types see them all
+CoreTexts == {"null", "~", "true", "yes", "1", " 1 ", "0x10", "1.5", "1e3", "\"1\"", "[]", "[1]", "[null]", "[1, a]", "[\"1\", a]", "[[1]]", "[null, 1]", "-",
+              "{}", "{\"a\": 1}", "{1: 2}", "{\"a\": null}", "{\"a\": \"1\", \"b\": x}", "[1", "abc", "A", "", "file.txt"}
+ScalarsNoText == {NoneV, BoolV(TRUE), BoolV(FALSE), IntV(0), IntV(1), IntV(2), FloatV(3, 2), FloatV(1, 1), FloatV(2, 1),
+                  EnumV("E", "A"), EnumV("E", "B"), EnumV("F", "C"), PathV("file.txt")}
+Scalars == ScalarsNoText \cup {StrV(s) : s \in Texts}
+TopScalars(t) == IF Tier = "quick" /\ t \notin TopLeaves THEN ScalarsNoText \cup {StrV(s) : s \in CoreTexts} ELSE Scalars
 Wrong   == {ListV(<< >>), ListV(<<IntV(1)>>), TupleV(<<IntV(1), StrV("a")>>), SetV({IntV(1)}), DictV(<< >>), D1(StrV("a"), IntV(1))}
 
 SeqsUpTo2(S) == {<< >>} \cup {<<a>> : a \in S} \cup {<<a, b>> : a \in S, b \in S}
 \* elements to build structures from: some conform to the element type, the others are wrong in one way
 RECURSIVE ElemPool(_)
 ElemPool(t) ==
-  CASE t.k \in LeafKinds \cup {"any", "literal", "enum"} ->
+  CASE t.k \in LeafKinds \cup {"any", "literal", "enum", "path"} ->
          {IntV(1), BoolV(TRUE), NoneV, FloatV(3, 2), StrV("1"), StrV("abc"), StrV("null"), StrV("A"), StrV("a"), EnumV("E", "A")}
     [] t.k = "union" -> UNION {ElemPool(t.v[i]) : i \in 1..Len(t.v)}
     [] t.k \in {"list", "set", "tupleE"} ->
@@ -88,9 +118,10 @@ ElemPool(t) ==
     [] t.k = "tuple" -> {ListV(<< >>), IntV(1), ListV(<<IntV(1), StrV("a")>>), ListV(<<IntV(1), IntV(2)>>), TupleV(<<IntV(1), StrV("a")>>), ListV(<<StrV("1"), StrV("a")>>), ListV(<<IntV(1)>>)}
     [] t.k = "dict" -> {DictV(<< >>), D1(StrV("a"), IntV(1)), D1(StrV("a"), StrV("x")), D1(IntV(1), IntV(2)), ListV(<< >>), NoneV}
 KeyPool == {StrV("a"), StrV("1"), StrV("0x10"), IntV(1), BoolV(TRUE)}
+TuplePick == {IntV(1), StrV("1"), StrV("a")}       \* first members of the candidates that are given as TUPLES / with a wrong arity
 RECURSIVE Structs(_)
 Structs(t) ==
-  CASE t.k \in LeafKinds \cup {"any", "literal", "enum"} -> {}
+  CASE t.k \in LeafKinds \cup {"any", "literal", "enum", "path"} -> {}
     [] t.k = "union" -> UNION {Structs(t.v[i]) : i \in 1..Len(t.v)}
     [] t.k \in {"list", "set", "tupleE"} ->
          LET P == IF Len(t.v) = 0 THEN {IntV(1), StrV("a"), NoneV} ELSE ElemPool(t.v[1])
@@ -98,27 +129,32 @@ Structs(t) ==
             \cup {TupleV(<<IntV(1), IntV(2)>>), SetV({IntV(1), IntV(2)}), SetV({})}
     [] t.k = "tuple" ->
          LET full == SeqProd([n \in 1..Len(t.v) |-> ElemPool(t.v[n])])
-         IN {ListV(s) : s \in full} \cup {TupleV(s) : s \in full}
-            \cup {ListV(SubSeq(s, 1, Len(s) - 1)) : s \in full} \cup {ListV(s \o <<IntV(1)>>) : s \in full} \cup {SetV({IntV(1)})}
+             some == {s \in full : s[1] \in TuplePick}
+         IN {ListV(s) : s \in full} \cup {TupleV(s) : s \in some}
+            \cup {ListV(SubSeq(s, 1, Len(s) - 1)) : s \in some} \cup {ListV(s \o <<IntV(1)>>) : s \in some} \cup {SetV({IntV(1)})}
     [] t.k = "dict" ->
          LET P == IF Len(t.v) = 0 THEN {IntV(1), StrV("a")} ELSE ElemPool(t.v[2])
          IN {DictV(<< >>)} \cup {D1(key, e) : key \in KeyPool, e \in P}
             \cup {DictV(<< <<StrV("a"), e>>, <<StrV("b"), f>> >>) : e \in P, f \in {IntV(1), StrV("abc")}}
             \cup {DictV(<< <<StrV("1"), e>>, <<IntV(2), e>> >>) : e \in {IntV(1), StrV("abc")}}
             \cup (IF Len(t.v) > 0 /\ t.v[1].k = "int" THEN {DictV(<< <<StrV("1"), IntV(1)>>, <<IntV(1), IntV(2)>> >>)} ELSE {})   \* two keys that cast to the same int
-Cands(t) == Scalars \cup Wrong \cup Structs(t)
+Cands(t) == TopScalars(t) \cup Wrong \cup Structs(t)
+\* with a default: every scalar (of every kind: some are ==-equal to the default), the wrong containers, and nothing at all
+AbsentV == [k |-> "absent", v |-> 0]
+DefaultCands(t) == Scalars \cup Wrong \cup Structs(t) \cup {AbsentV}
 
 \* ------------------------------------------------------------------ the state space: one state per case
-VARIABLES t, x, ph
-vars == <<t, x, ph>>
-Init == t \in TypeSet /\ x = NoneV /\ ph = 0
-Next == ph = 0 /\ ph' = 1 /\ t' = t /\ x' \in Cands(t)
+VARIABLES t, d, x, ph
+vars == <<t, d, x, ph>>
+Init == ph = 0 /\ x = NoneV /\ \E p \in {<<ty, NoneV>> : ty \in TypeSet} \cup DefaultPairs : t = p[1] /\ d = p[2]
+Next == ph = 0 /\ ph' = 1 /\ t' = t /\ d' = d /\ x' \in (IF d = NoneV THEN Cands(t) ELSE DefaultCands(t))
 Spec == Init /\ [][Next]_vars
 
 Case == ph = 1
+Given == Case /\ x # AbsentV
 \* the property on the Ref layer
-InvRefLaws          == Case => RefLaws(t, x)
-InvRefPermInvariant == Case => RefPermInvariant(t, x)
+InvRefLaws          == (Given /\ Laws = "all") => RefLaws(t, x)
+InvRefPermInvariant == (Given /\ Laws = "all") => RefPermInvariant(t, x)
 
 RECURSIVE Jsonable(_)
 Jsonable(y) == CASE y.k = "bag" -> [k |-> "bag", v |-> [n \in 1..Len(AsSeq(y)) |-> Jsonable(AsSeq(y)[n])]]
@@ -126,25 +162,31 @@ Jsonable(y) == CASE y.k = "bag" -> [k |-> "bag", v |-> [n \in 1..Len(AsSeq(y)) |
                  [] y.k = "set" -> [k |-> "set", v |-> {Jsonable(e) : e \in y.v}]
                  [] y.k = "dict" -> [k |-> "dict", v |-> [n \in 1..Len(y.v) |-> <<y.v[n][1], Jsonable(y.v[n][2])>>]]
                  [] OTHER -> y
-\* what the replay needs: Ref's verdict and normal forms, Alg's prediction and the deviations it went through,
-\* the predicted config representation (C10)
+\* what the replay needs: Ref's verdict and normal forms, Alg's prediction and the deviations it went through
 CaseJson(a) ==
-  LET s == IF a.ok /\ a.v # NoneV THEN AlgDump(t, a.v) ELSE Er({}, NoneV)
-      r == IF s.ok THEN AlgParse(t, Unbag(s.v), NoneV) ELSE Er({}, NoneV)
-  IN [t |-> t, x |-> x, acc |-> Accepts(t, x), res |-> TopResults(t, x),
-      aok |-> a.ok, av |-> a.v, dev |-> a.dev, sok |-> s.ok, ser |-> Jsonable(s.v), sdev |-> s.dev \cup r.dev]
+  [t |-> t, d |-> d, x |-> x, acc |-> Accepts(t, x), res |-> TopResults(t, x), aok |-> a.ok, av |-> a.v, dev |-> a.dev]
+\* the key is not given: what parse_object (defaults normalised) and parse_args (defaults as they are) return
+AbsentJson(n, r) ==
+  [t |-> t, d |-> d, x |-> x, nok |-> n.ok, nv |-> n.v, ndev |-> n.dev, rok |-> r.ok, rv |-> r.v, rdev |-> r.dev]
 ASSUME Emit # "none" => PrintT(ToJson([vocabulary |-> LET S == SetAsSeq(DOMAIN YamlTbl) IN [n \in 1..Len(S) |-> <<S[n], YamlTbl[S[n]]>>]]))
 
 \* the transcription against Ref (C02) and its fixed-point laws (C10); AlgParse is evaluated once per case and a
 \* failing law prints its name before TLC reports InvAlg
 Named(name, holds) == holds \/ (PrintT(<<"LAW", name>>) /\ FALSE)
 InvAlg ==
-  IF ~Case THEN (Emit # "none" => PrintT(ToJson([type |-> t])))
-  ELSE LET a == AlgParse(t, x, NoneV)
-       IN /\ Named("AlgRefinesRef", AlgRefinesRefA(t, x, a))
-          /\ Named("AlgPermInvariant", AlgPermInvariantA(t, x, a))
-          /\ Named("DevsAsDescribed", DevsAsDescribedA(t, x, a))
-          /\ Named("Idempotent", IdempotentA(t, x, a))
-          /\ Named("DumpStable", DumpStableA(t, x, a))
+  IF ~Case THEN (Emit # "none" => PrintT(ToJson([type |-> t, d |-> d])))
+  ELSE IF x = AbsentV
+  THEN LET n == AlgParseAbsent(t, d, TRUE)
+           r == AlgParseAbsent(t, d, FALSE)
+       IN /\ Named("AbsentLaws", AbsentLawsA(t, d, n) /\ AbsentLawsA(t, d, r))
+          /\ Named("AbsentIdempotent", (n.dev = {} => IdempotentA(t, d, n)) /\ (r.dev = {} => IdempotentA(t, d, r)))
+          /\ Named("AbsentDumpStable", (n.dev = {} => DumpStableA(t, d, n)) /\ (r.dev = {} => DumpStableA(t, d, r)))
+          /\ (Emit # "none") => PrintT(ToJson(AbsentJson(n, r)))
+  ELSE LET a == AlgParse(t, x, d)
+       IN /\ Laws = "all" => Named("AlgRefinesRef", AlgRefinesRefA(t, x, a))
+          /\ (Laws = "all" /\ Tier # "quick") => Named("AlgPermInvariant", AlgPermInvariantA(t, x, d, a))    \* (quick: every permutation is a state of its own)
+          /\ Laws = "all" => Named("DevsAsDescribed", DevsAsDescribedA(t, x, a))
+          /\ Named("Idempotent", IdempotentA(t, d, a))
+          /\ Named("DumpStable", DumpStableA(t, d, a))
           /\ (Emit = "all" \/ (Emit = "accepted" /\ a.ok)) => PrintT(ToJson(CaseJson(a)))
 =============================================================================
